@@ -4,7 +4,7 @@ import re
 from props import runner_common
 
 ID = "C03"
-COQ_TARGETS = ["Props/C03.vo"]
+COQ_TARGETS = ["Gen/RunnerConsts.vo", "Props/C03.vo"]
 AREA = "runner"
 EXTRACT_V = "Runner/Extract.v"
 GO_CMD = "hx-runner"
